@@ -82,7 +82,7 @@ def apply_variant(prog, var):
     mname = "pyoma2." + modname
     if mname not in prog.mods:
         return None
-    tree = copy.deepcopy(prog.mods[mname].tree)
+    tree = ast.parse(prog.mods[mname].src)          # the module as written (prog's own tree has been normalised: helpers inlined into callers)
     scope = tree if not func else _find_func(tree, func)
     if scope is None:
         return None
@@ -125,7 +125,7 @@ class _Rename(ast.NodeTransformer):
 
 def rename_local(prog, modname, func, old, new):
     mname = "pyoma2." + modname
-    tree = copy.deepcopy(prog.mods[mname].tree)
+    tree = ast.parse(prog.mods[mname].src)          # the module as written (prog's own tree has been normalised: helpers inlined into callers)
     f = _find_func(tree, func)
     if f is None:
         return None
